@@ -97,6 +97,8 @@ def _transitions(pm, orc, pre, mv):
             orc.check(assoc == CA.DISASSOCIATED, 'stopped-being-associated-but-not-marked-disassociated')
             orc.check(unb == new_v, 'unbinding-version!=commit-version')
             orc.check(t1 is not None, 'binding-end-time-not-set')
+        if old is not None and old[1] == CA.DISASSOCIATED and assoc != CA.ASSOCIATED:
+            orc.check(assoc == CA.DISASSOCIATED, 'disassociated-state-no-longer-marked-disassociated')
         if assoc == CA.ASSOCIATED and not was_assoc:
             orc.check(bind == new_v, 'binding-version!=commit-version')
             orc.check(t0 is not None, 'binding-start-time-not-set')
@@ -159,17 +161,24 @@ def set_location_step(mv: int, a0: int, a1: int, hu0: bool, u0: int, hu1: bool, 
     return orc.result()
 
 
+PROPOSAL_WITH_UNBINDING = [False]
+
+
 def _proposal(pm, descr, which, assoc_sel):
     """which: 0 new state (Handle == DescriptorHandle by BICEPS convention), 1 update of cs0, 2 update of cs1, 3 unknown handle."""
     d = pm.descriptions.handle.get_one(descr)
     st = pm.data_model.get_state_class_for_descriptor(d)(d)
     st.Handle = (descr, 'cs0', 'cs1', 'nope')[which] if descr == 'lc0' else (descr, 'os0', 'os0', 'nope')[which]
     st.ContextAssociation = pick(assoc_sel, (CA.ASSOCIATED, CA.DISASSOCIATED, CA.NO_ASSOCIATION, CA.PRE_ASSOCIATION))
+    if PROPOSAL_WITH_UNBINDING[0]:
+        # schema-valid members a client can send along (e.g. it re-submits the copy of an old state)
+        st.UnbindingMdibVersion = 0
+        st.BindingEndTime = 1600000000.0
     return st
 
 
 def set_context_state_step(mv: int, a0: int, a1: int, hu0: bool, u0: int, hu1: bool, u1: int, sv: int,
-                           n: int, w1: int, p1: int, d2: int, w2: int, p2: int) -> str:
+                           n: int, w1: int, p1: int, d2: int, w2: int, p2: int, pu: bool = False) -> str:
     """
     The tutorial's SetContextState handler with n in {1, 2} proposed states: proposal i targets descriptor lc0 (d2 == 0) or
     the other descriptor pc0 (d2 == 1, second proposal only), is new / update of cs0 / update of cs1 / unknown handle (w),
@@ -190,6 +199,7 @@ def set_context_state_step(mv: int, a0: int, a1: int, hu0: bool, u0: int, hu1: b
     """
     orc = Oracle()
     try:
+        PROPOSAL_WITH_UNBINDING[0] = bool(pu)
         pm, cap = _pre_state(mv, a0, a1, hu0, u0, hu1, u1, sv)
         if _invariant(pm):
             return 'ok'          # assumed: the pre-state satisfies the invariant
